@@ -47,9 +47,9 @@ type niRule struct {
 }
 
 type niQuery struct {
-	URL    []int `json:"url"`
-	Src    aHost `json:"src"`
-	SrcPsl aPsl  `json:"srcPsl"`
+	URL    []int  `json:"url"`
+	Src    aHost  `json:"src"`
+	SrcPsl aPsl   `json:"srcPsl"`
 	Raw    string `json:"raw"`
 }
 
@@ -83,7 +83,8 @@ func cmdNetIndexPool(args []string) error {
 	type spec struct{ pat, dom string }
 	var specs []spec
 	shortcuts := []string{X, Y, X + "q", "r" + Y, "zzzzzz", "zzzzz", X2 + Y2, "ab", "https:", "", T1, T2}
-	doms := []string{"", D1, D2, "sub." + D1, strings.TrimSuffix(D1, ".com") + ".*", D1 + "|" + D2, "com"}
+	DM := strings.ToUpper(D1[:2]) + D1[2:] // the same name in mixed case: domain values and hosts are compared as written
+	doms := []string{"", D1, D2, "sub." + D1, strings.TrimSuffix(D1, ".com") + ".*", D1 + "|" + D2, "com", DM}
 	for _, s := range shortcuts {
 		for _, d := range doms {
 			if s == "" && d == "" {
@@ -129,7 +130,7 @@ func cmdNetIndexPool(args []string) error {
 		pool.Rules = append(pool.Rules, ar)
 	}
 	base := strings.TrimSuffix(D1, ".com")
-	srcs := []string{"", D1, D2, "sub." + D1, "x.sub." + D1, base + ".org", "not" + D1, "other.net"}
+	srcs := []string{"", D1, D2, "sub." + D1, "x.sub." + D1, base + ".org", "not" + D1, "other.net", DM}
 	var urls []string
 	for _, s := range []string{X, Y, X + "q", "r" + Y, "zzzzzz", "zzzzz", X2 + Y2, "ab", T1, T2} {
 		urls = append(urls, "http://h.test/"+s, "http://h.test/p"+s+"/t", "HTTP://H.TEST/"+strings.ToUpper(s), "http://h.test/"+s[:len(s)-1])
@@ -231,13 +232,15 @@ func cmdReplayNetIndex(args []string) error {
 				out.write(map[string]any{"why": "panic building the engine: " + pv, "rules": texts, "case": c})
 				continue
 			}
-			// the linear scan the property names: every network rule of the storage, matched individually
+			// the linear scan the property names: every network rule of the lists (parsed line by line), matched individually
 			var all []*rules.NetworkRule
-			sc := st.NewRuleStorageScanner()
-			for sc.Scan() {
-				r, _ := sc.Rule()
-				if nr, ok := r.(*rules.NetworkRule); ok {
-					all = append(all, nr)
+			for _, l := range lists {
+				for _, t := range l {
+					if r, err := rules.NewRule(t, 1); err == nil {
+						if nr, ok := r.(*rules.NetworkRule); ok && nr != nil {
+							all = append(all, nr)
+						}
+					}
 				}
 			}
 			for k, q := range reqs {
@@ -397,6 +400,18 @@ func cmdDriveNetIndex(args []string) error {
 			}
 		}
 	}
+	// one rule line longer than the 4 KiB read buffer: hundreds of $domain values
+	if len(reqs) > 0 {
+		var ds []string
+		for i := 0; i < 420; i++ {
+			ds = append(ds, fmt.Sprintf("long%03d.example", i))
+		}
+		fh := filterutil.ExtractHostname(reqs[0].FrameURL)
+		if fh != "" {
+			ds = append(ds, fh)
+		}
+		keep = append(keep, "/*$domain="+strings.Join(ds, "|"))
+	}
 	half := len(keep) / 2
 	st, err := filterlist.NewRuleStorage([]filterlist.RuleList{
 		&filterlist.StringRuleList{ID: 1, RulesText: strings.Join(keep[:half], "\n")},
@@ -405,12 +420,13 @@ func cmdDriveNetIndex(args []string) error {
 		return err
 	}
 	eng := urlfilter.NewNetworkEngine(st)
+	// the reference: the network rules of the lists, parsed line by line (not taken from the storage scanner)
 	var all []*rules.NetworkRule
-	sc := st.NewRuleStorageScanner()
-	for sc.Scan() {
-		r, _ := sc.Rule()
-		if nr, ok := r.(*rules.NetworkRule); ok {
-			all = append(all, nr)
+	for _, l := range keep {
+		if r, err := rules.NewRule(l, 1); err == nil {
+			if nr, ok := r.(*rules.NetworkRule); ok && nr != nil {
+				all = append(all, nr)
+			}
 		}
 	}
 	nonempty := 0
